@@ -436,8 +436,9 @@ def resolve_world(raw: dict) -> dict:
     edges = [[zpos, zpos]] + [[a % nv, b % nv] for a, b in w['edges']]
     ne = len(edges)
     se = []
+    messy = bool(w.get('messy'))     # tables not in the order a rebuild produces: unused records, out-of-first-use order
     if ne > 1:
-        se = [k for k in range(1, ne)]
+        se = [] if messy else [k for k in range(1, ne)]
         for v in w['surfedges']:
             k = 1 + abs(v) % (ne - 1)
             se.append(-k if v < 0 else k)
@@ -453,6 +454,12 @@ def resolve_world(raw: dict) -> dict:
     texinfo = []
     used: dict[int, int] = {}
     texdata = []
+    if messy:       # keep every texdata record where it is (unreferenced ones included)
+        for k, t in enumerate(texdata_in):
+            used[k] = k
+            t = list(t)
+            t[3] %= len(texstr)
+            texdata.append(t)
     for fl, flags, td in (w['texinfo'] or [[[0.0] * 16, 0, 0]]):
         td %= len(texdata_in)
         if td not in used:
@@ -547,7 +554,7 @@ def resolve_world(raw: dict) -> dict:
             e['kv'].insert(0, ['classname', 'info_null'])
         e['kv'] = [p for p in e['kv'] if p[0].casefold() != 'model']
     refs = list(w.get('model_refs', []))
-    for k in range(1, nm):
+    for k in (range(nm - 1, 0, -1) if messy else range(1, nm)):     # messy: entities name the models in descending order
         ents.append({'kv': [['classname', 'func_brush'], ['model', f'*{k}']], 'outs': []})
     for r in refs:
         if nm > 1:
@@ -860,7 +867,7 @@ def encode_world(w: dict) -> tuple[dict[int, dict], list[dict]]:
         assert idx in OPAQUE_LUMPS, name
         d[idx] = bytes.fromhex(hx)
     lumps: dict[int, dict] = {}
-    lz = set(w['lzma'])
+    lz = set(LUMP_NAMES) if w.get('lzma_all') else set(w['lzma'])
     opt_list = [lzma_opts_of(o) for o in w.get('lzma_opts', [])] or [None]
     for idx, data in d.items():
         nm = LUMP_NAMES[idx]
@@ -964,12 +971,18 @@ def world_strategy(tier: str, layouts: Optional[list[str]] = None, rich: bool = 
     mdl = st.one_of(
         st.text('abcxyz_/0189.', min_size=1, max_size=14).map(lambda s: 'models/' + s + '.mdl'),
         st.integers(110, 127).map(lambda n: ('models/' + 'x' * 140)[:n]),
+        st.sampled_from(['models/Props/Grass01.mdl', 'models/props/grass01.mdl', 'MODELS/PROPS/GRASS01.MDL']),
     )
     ident = st.text('abcdefgXYZ_0123', min_size=1, max_size=8)
+    # output delays: m x 10^e with <= 5 significant digits over all magnitudes (the writer uses '%g')
+    delay_text = st.one_of(
+        st.sampled_from(['0', '0.5', '1', '2.25', '10', '0.01', '1e-07', '2.5e-05', '123450000', '0.00012345']),
+        st.tuples(st.integers(1, 99999), st.integers(-9, 9)).map(lambda t: f'{t[0]}e{t[1]}'),
+    )
     value = st.text('abcXYZ 0123.,;:-_+*#@!$%&/()[]=<>|~^\udc80\udcff', max_size=12).filter(
         lambda s: s.count(',') != 4)
     out = st.tuples(ident, ident, ident, st.text('abc 012._-', max_size=6),
-                    st.sampled_from(['0', '0.5', '1', '2.25', '10', '0.01']), st.sampled_from([-1, 1, 3])).map(list)
+                    delay_text, st.sampled_from([-1, 1, 3])).map(list)
     ent = st.fixed_dictionaries({
         'kv': st.lists(st.tuples(ident, value).map(list), max_size=4, unique_by=lambda p: p[0].casefold()).map(
             lambda kv: [p for p in kv if p[0].casefold() not in ('nodeid', 'model')]),
@@ -1080,7 +1093,12 @@ def world_strategy(tier: str, layouts: Optional[list[str]] = None, rich: bool = 
                         max_size=2, unique_by=lambda p: p[0]),
         'opaque': st.dictionaries(st.sampled_from(opaque_names), gens.hexbytes(1, 24), max_size=5),
         'lump_ver': st.dictionaries(st.sampled_from(all_names), st.sampled_from([0, 1, 2, 0x7FFFFFFF, -1]), max_size=5),
-        'lzma': st.one_of(st.just([]), st.lists(st.sampled_from(all_names), max_size=3, unique=True)),
+        'lzma': st.one_of(st.just([]), st.lists(st.sampled_from(all_names), max_size=3, unique=True),
+                          st.sampled_from([['TEXINFO', 'TEXDATA'], ['TEXINFO'], ['SURFEDGES', 'EDGES'], ['SURFEDGES'],
+                                           ['ENTITIES', 'MODELS'], ['ENTITIES'], ['LEAFS', 'LEAFFACES', 'LEAFBRUSHES'],
+                                           ['BRUSHES', 'BRUSHSIDES'], ['FACES', 'ORIGINALFACES', 'PLANES']])),
+        'lzma_all': st.sampled_from([False] * 11 + [True]),
+        'messy': st.booleans(),
         'gl_lzma': st.one_of(st.just([]), st.lists(st.sampled_from(['sprp', 'dprp']), max_size=2, unique=True)),
         'gl_dummy': st.booleans(),
         'gl_pad': st.sampled_from([0, 0, 1, 3]),
